@@ -640,9 +640,10 @@ def compose(feats):
         root['a'].insert(0, ['c', VT_ELEMENT, 's', 1])
     for f in feats:
         if f[0] == 'namekey':
-            root['nk'] = f[1]
             if f[1].casefold() != 'name' or f[1] == 'name':
                 return None
+            root['nk'] = f[1]
+            root['a'].append(['after_name', 'int', 's', 7])     # makes a lost/misplaced attribute visible
         if f[0] != 'name':
             continue
         _, role, s = f
@@ -844,35 +845,40 @@ def _gen_attrs(k: int, d: int, st: int, nmax: int, budget: int):
                 yield [attr] + rest, d3, st3, b3
 
 
-def gen_graphs(nmax: int, slots: int, root_attrs=None):
+def _expand(els, d, st, budget, nmax):
+    for k in (0, 1, 2):
+        for attrs, d2, st2, b2 in _gen_attrs(k, d, st, nmax, budget):
+            yield els + [attrs], d2, st2, b2
+
+
+def gen_from(state, nmax: int):
+    """Every complete graph below a generator state (element prefix, discovered, stubs seen, budget left)."""
+    els, d, _st, _b = state
+    if len(els) == d:
+        yield els
+        return
+    for nxt in _expand(*state, nmax):
+        yield from gen_from(nxt, nmax)
+
+
+def gen_graphs(nmax: int, slots: int):
     """Every graph on <= nmax elements, <= 2 element attributes each, <= `slots` references in total,
     every element reachable, elements/stubs numbered in discovery order (each graph exactly once)."""
-    def rec(els, d, st, budget):
-        i = len(els)
-        if i == d:
-            yield els
-            return
-        for k in (0, 1, 2):
-            for attrs, d2, st2, b2 in _gen_attrs(k, d, st, nmax, budget):
-                yield from rec(els + [attrs], d2, st2, b2)
-    if root_attrs is None:
-        yield from rec([], 1, 0, slots)
-    else:
-        # resume below a fixed root (sharding): recompute the discovery state of the root
-        d, st, used = 1, 0, 0
-        for _, t in graph_targets([root_attrs]):
-            used += 1
-            if isinstance(t, int):
-                d = max(d, t + 1)
-            elif t != 'N':
-                st = max(st, int(t[1:]) + 1)
-        yield from rec([root_attrs], d, st, slots - used)
+    return gen_from(([], 1, 0, slots), nmax)
 
 
-def graph_roots(nmax: int, slots: int):
-    for k in (0, 1, 2):
-        for attrs, _d, _st, _b in _gen_attrs(k, 1, 0, nmax, slots):
-            yield attrs
+def graph_prefixes(nmax: int, slots: int, depth: int = 2) -> list:
+    """Generator states after `depth` elements (or complete graphs): a partition of the family for sharding."""
+    states = [([], 1, 0, slots)]
+    for _ in range(depth):
+        nxt = []
+        for stt in states:
+            if len(stt[0]) == stt[1]:
+                nxt.append(stt)
+            else:
+                nxt.extend(_expand(*stt, nmax))
+        states = nxt
+    return states
 
 
 # ---------------------------------------------------------------------------------------------
@@ -1053,10 +1059,9 @@ UNI = ['ascii', 'format', 'silent']
 ALLCFG = ([{'enc': 'bin', 'ver': v, 'uni': u} for v in (1, 2, 3, 4, 5) for u in UNI]
           + [{'enc': 'kv2', 'flat': f, 'cull': c, 'uni': u} for f in (False, True) for c in (False, True) for u in UNI])
 GRAPHCFG = [c for c in ALLCFG if c['uni'] == 'ascii']
-GRAPHCFG_TOP = [c for c in GRAPHCFG if c.get('ver') in (2, 5) or (c['enc'] == 'kv2' and c['flat'] == c['cull'])]
-CFGSETS = {'all': ALLCFG, 'graph': GRAPHCFG, 'graphtop': GRAPHCFG_TOP}
+GRAPHCFG_TOP = [c for c in GRAPHCFG if c.get('ver') in (1, 5) or (c['enc'] == 'kv2' and c['flat'] == c['cull'])]
 
-NAMES = ['a', 'A', 'id', 'ID', 'we"ird', 'back\\slash', 'sp ace', '\u00e9', '', "it's", 'l1\nl2', 'name', 'Name']
+NAMES = ['a', 'A', 'id', 'ID', 'we"ird', 'back\\slash', 'bs\\n', 'sp ace', '\u00e9', '', "it's", 'l1\nl2', 'name', 'Name']
 NAMEKEYS = ['Name', 'NAME']
 REP_GRAPHS = [
     [[['s', 1]], [['s', 2]], []],                       # chain
@@ -1146,7 +1151,7 @@ def kv_forests(n_nodes: int, names, values=('', 'x')):
     """Every labelled ordered forest with exactly n_nodes nodes: a childless node is a leaf (each value) or an
     empty block, a node with children is a block."""
     def label(tree):
-        kid_opts = [label(k) for k in tree]
+        kid_opts = [list(label(k)) for k in tree]
         for nm in names:
             if not tree:
                 for v in values:
@@ -1156,11 +1161,6 @@ def kv_forests(n_nodes: int, names, values=('', 'x')):
                 for kids in itertools.product(*kid_opts):
                     yield [nm, list(kids)]
 
-    def label_cached(tree, memo={}):
-        if tree not in memo:
-            memo[tree] = list(label(tree))
-        return memo[tree]
-    label_cached.__defaults__[0].clear()
     for forest in trees(n_nodes):
         opts = [list(label(t)) for t in forest]
         for combo in itertools.product(*opts):
@@ -1210,14 +1210,21 @@ def shard(spec) -> core.Acc:
     if kind == 'dmx':
         _, cfgset, lists = spec
         for feats in lists:
-            for cfg in CFGSETS[cfgset]:
+            # quick tier: for a pair of features without any non-ASCII character unicode='silent' writes the very
+            # bytes unicode='ascii' writes, so it is skipped there (single features and the thorough tier run all 27)
+            skip_silent = (cfgset == 'quick' and len(feats) > 1
+                           and all(x.isascii() for x in doc_strings(compose(feats))))
+            for cfg in ALLCFG:
+                if skip_silent and cfg['uni'] == 'silent':
+                    acc.count('pairs_silent_skipped')
+                    continue
                 check_dmx(acc, feats, cfg)
         if lists:
-            acc.sample({'fam': 'dmx', 'feats': lists[-1], 'cfg': CFGSETS[cfgset][-1]}, 1)
+            acc.sample({'fam': 'dmx', 'feats': lists[-1], 'cfg': ALLCFG[0]}, 1)
     elif kind == 'graph':
-        _, nmax, slots, root_attrs = spec
+        _, nmax, states = spec
         n = 0
-        for g in gen_graphs(nmax, slots, root_attrs):
+        for g in (g for stt in states for g in gen_from(tuple(stt), nmax)):
             top = sum(1 for _ in graph_targets(g)) >= TOP_LAYER[0]
             for cfg in (GRAPHCFG_TOP if top else GRAPHCFG):
                 check_dmx(acc, [['graph', g]], cfg)
@@ -1225,7 +1232,7 @@ def shard(spec) -> core.Acc:
             acc.count('graphs_top_layer' if top else 'graphs_all_configs')
             for t in graph_tags(g):
                 acc.count('graphs_with_' + t)
-        if n and not root_attrs:
+        if n:
             acc.sample({'fam': 'dmx', 'feats': [['graph', g]], 'cfg': GRAPHCFG[0]}, 1)
     elif kind == 'kv1':
         for tree, routes in spec[1]:
@@ -1258,10 +1265,13 @@ def run(ctx: core.Ctx) -> None:
         lists.append(feats)
     ndocs = len(lists)
     for chunk in core.chunked(lists, 120 if q else 400):
-        shards.append(('dmx', 'all', chunk))
-    roots = list(graph_roots(3, slots))
-    for r in roots:
-        shards.append(('graph', 3, slots, r))
+        shards.append(('dmx', 'quick' if q else 'all', chunk))
+    prefixes = graph_prefixes(3, slots)
+    nshards = 64 if q else 256
+    for i in range(nshards):                      # strided: every shard gets a mix of large and small sub-families
+        part = prefixes[i::nshards]
+        if part:
+            shards.append(('graph', 3, part))
     kvt = [(t, r) for t, r in kv_trees(q) if kv_valid(t)]
     kseen = set()
     kv = []
@@ -1283,13 +1293,13 @@ def run(ctx: core.Ctx) -> None:
         f'DMX: (1) every element graph on root + <= 2 further elements, <= 2 element-valued attributes per element '
         f'(scalar or array of length 0..2, targets: any element, NULL, two stubs), at most {slots} references in total, '
         f'every element reachable, generated once each in discovery order, x binary v1..5 and KV2 x flat x cull_uuid'
-        + (' (graphs with exactly 4 references: binary v2/v5, KV2 nested and flat+cull only)' if q else '') +
+        + (' (graphs with exactly 4 references: binary v1/v5, KV2 nested and flat+cull only)' if q else '') +
         f'; (2) documents composed of <= 2 features on a one-element base: a value attribute (13 non-element types, '
         f'scalar / array of length 0,1,2 over all boundary values as single features, the first {depth} boundary values per '
         f'type inside pairs, ordered), a name from {len(NAMES)} strings in one of 7 roles (element type/name, attribute name, '
         f'child type/name, name of a scalar/array link), {len(REP_GRAPHS)} representative graphs, the `name` attribute assigned '
         f'through a mixed-case key; x all 27 configurations (binary v1..5 x unicode ascii/format/silent, KV2 x flat x '
-        f'cull_uuid x unicode). Expressibility rule: TIME before binary v3 and non-ASCII text under unicode=ascii must make '
+        f'cull_uuid x unicode' + ('; pairs without non-ASCII text skip unicode=silent, whose output is byte-identical to ascii' if q else '') + '). Expressibility rule: TIME before binary v3 and non-ASCII text under unicode=ascii must make '
         f'export raise; everything else must round-trip. Representability (excluded by the generator): strings containing NUL, '
         f'an attribute literally keyed `name` (that slot is the element name), two keys equal under casefold in one element, '
         f'element types equal to a value-type keyword, non-finite floats, floats outside float32, times off the 1/10000 s grid. '
